@@ -469,3 +469,775 @@ theorem abs_wf {a r : Num} (h : abs a = .ok r) : r.WF := by
   | int i => exact exactRatio_wf' h
   | rat n d => exact exactRatio_wf' h
   | real f => cases h; trivial
+
+/-! ### no panic, no spurious error -/
+
+theorem isOk_noPanic {e : Except Err Num} (h : IsOk e) : NoPanic e := by
+  obtain ⟨r, rfl⟩ := h; intro s hs; cases hs
+
+theorem mul_den_ne {a b : Num} (ha : a.PosDen) (hb : b.PosDen) : a.den * b.den ≠ 0 :=
+  Int.ne_of_gt (Int.mul_pos (posDen_den ha) (posDen_den hb))
+
+theorem add_isOk {a b : Num} (ha : a.PosDen) (hb : b.PosDen) : IsOk (add a b) := by
+  by_cases ea : a.isExact = true
+  · by_cases eb : b.isExact = true
+    · rw [add_exact ea eb]; exact exactRatio_isOk (mul_den_ne ha hb)
+    · rw [add_real (Or.inr (by simpa using eb))]; exact ⟨_, rfl⟩
+  · rw [add_real (Or.inl (by simpa using ea))]; exact ⟨_, rfl⟩
+
+theorem sub_isOk {a b : Num} (ha : a.PosDen) (hb : b.PosDen) : IsOk (sub a b) := by
+  by_cases ea : a.isExact = true
+  · by_cases eb : b.isExact = true
+    · rw [sub_exact ea eb]; exact exactRatio_isOk (mul_den_ne ha hb)
+    · rw [sub_real (Or.inr (by simpa using eb))]; exact ⟨_, rfl⟩
+  · rw [sub_real (Or.inl (by simpa using ea))]; exact ⟨_, rfl⟩
+
+theorem mul_isOk {a b : Num} (ha : a.PosDen) (hb : b.PosDen) : IsOk (mul a b) := by
+  by_cases ea : a.isExact = true
+  · by_cases eb : b.isExact = true
+    · rw [mul_exact ea eb]; exact exactRatio_isOk (mul_den_ne ha hb)
+    · rw [mul_real (Or.inr (by simpa using eb))]; exact ⟨_, rfl⟩
+  · rw [mul_real (Or.inl (by simpa using ea))]; exact ⟨_, rfl⟩
+
+theorem abs_isOk {a : Num} (ha : a.PosDen) : IsOk (abs a) := by
+  by_cases ea : a.isExact = true
+  · rw [abs_exact ea]; apply exactRatio_isOk
+    have := posDen_den ha; omega
+  · cases a <;> simp_all [isExact]; exact ⟨_, rfl⟩
+
+/-- `div` on operands with positive denominators: `divZero` exactly when both operands are exact
+and the divisor is zero, `ok` otherwise. -/
+theorem div_cases {a b : Num} (ha : a.PosDen) (hb : b.PosDen) :
+    (a.isExact = true ∧ b.isExact = true ∧ b.num = 0 ∧ div a b = .error .divZero) ∨
+    (¬ (a.isExact = true ∧ b.isExact = true ∧ b.num = 0) ∧ IsOk (div a b)) := by
+  by_cases ea : a.isExact = true
+  · by_cases eb : b.isExact = true
+    · rw [div_exact ea eb]
+      have da := posDen_den ha
+      have db := posDen_den hb
+      by_cases h0 : b.num = 0
+      · left; rw [if_pos h0]; exact ⟨ea, eb, h0, rfl⟩
+      · right; rw [if_neg h0, if_neg (by omega), if_neg (by omega)]
+        exact ⟨fun h => h0 h.2.2, exactRatio_isOk (Int.mul_ne_zero (by omega) h0)⟩
+    · rw [div_real (Or.inr (by simpa using eb))]; exact Or.inr ⟨fun h => eb h.2.1, ⟨_, rfl⟩⟩
+  · rw [div_real (Or.inl (by simpa using ea))]; exact Or.inr ⟨fun h => ea h.1, ⟨_, rfl⟩⟩
+
+theorem val_zero_iff {b : Num} (hb : b.PosDen) (eb : b.isExact = true) :
+    b.val = some 0 ↔ b.num = 0 := by
+  have db := posDen_den hb
+  have : (b.den : ℚ) ≠ 0 := by exact_mod_cast (Int.ne_of_gt db)
+  rw [val_num_den eb, Option.some.injEq, div_eq_zero_iff]
+  constructor
+  · rintro (h | h)
+    · exact_mod_cast h
+    · exact absurd h this
+  · intro h; left; exact_mod_cast h
+
+/-- division by an exact zero is `divZero`, whatever the representation of the zero -/
+theorem div_exact_zero {a b : Num} (ea : a.isExact = true) (hb : b.val = some 0) :
+    div a b = .error .divZero := by
+  have eb := val_isExact hb
+  rw [val_num_den eb, Option.some.injEq, div_eq_zero_iff] at hb
+  rw [div_exact ea eb]
+  by_cases h0 : b.num = 0
+  · rw [if_pos h0]
+  · rw [if_neg h0]
+    have : b.den = 0 := by
+      rcases hb with h | h
+      · exact absurd (by exact_mod_cast h) h0
+      · exact_mod_cast h
+    split <;> rfl
+
+/-! ### completeness below a bound -/
+
+theorem natAbs_mul_le {x y : Int} {k : Nat} (hx : x.natAbs ≤ k) (hy : y.natAbs ≤ k) :
+    (x * y).natAbs ≤ k * k := by
+  rw [Int.natAbs_mul]; exact Nat.mul_le_mul hx hy
+
+theorem below_num {B : Int} {a : Num} (h : a.Below B) (hB : 1 < B) :
+    a.num.natAbs ≤ (B - 1).toNat := by
+  cases a with
+  | int i => have := h.1; have := h.2; simp only [num]; omega
+  | rat n d => have := h.1; have := h.2.1; simp only [num]; omega
+  | real r => simp only [num]; omega
+
+theorem below_den {B : Int} {a : Num} (h : a.Below B) (hB : 1 < B) :
+    a.den.natAbs ≤ (B - 1).toNat := by
+  cases a with
+  | int i => simp only [den]; omega
+  | rat n d => have := h.2.2.1; have := h.2.2.2; simp only [den]; omega
+  | real r => simp only [den]; omega
+
+/-- `Below 2^15`: products are at most `(2^15-1)^2 < 2^30`, sums of two at most `2^31 - 2^17 + 2`. -/
+theorem add_complete {a b : Num} (ea : a.isExact = true) (eb : b.isExact = true)
+    (pa : a.PosDen) (pb : b.PosDen) (ba : a.Below 32768) (bb : b.Below 32768) :
+    ∃ r, add a b = .ok r ∧ r.isExact = true := by
+  rw [add_exact ea eb]
+  have n1 := below_num ba (by decide); have n2 := below_num bb (by decide)
+  have d1 := below_den ba (by decide); have d2 := below_den bb (by decide)
+  have k : (32768 - 1 : Int).toNat = 32767 := by decide
+  rw [k] at n1 n2 d1 d2
+  have p1 := natAbs_mul_le n1 d2
+  have p2 := natAbs_mul_le d1 n2
+  have p3 := natAbs_mul_le d1 d2
+  have s := Int.natAbs_add_le (a.num * b.den) (a.den * b.num)
+  exact exactRatio_exact_of_natAbs (mul_den_ne pa pb) (by omega) (by omega)
+
+theorem sub_complete {a b : Num} (ea : a.isExact = true) (eb : b.isExact = true)
+    (pa : a.PosDen) (pb : b.PosDen) (ba : a.Below 32768) (bb : b.Below 32768) :
+    ∃ r, sub a b = .ok r ∧ r.isExact = true := by
+  rw [sub_exact ea eb]
+  have n1 := below_num ba (by decide); have n2 := below_num bb (by decide)
+  have d1 := below_den ba (by decide); have d2 := below_den bb (by decide)
+  have k : (32768 - 1 : Int).toNat = 32767 := by decide
+  rw [k] at n1 n2 d1 d2
+  have p1 := natAbs_mul_le n1 d2
+  have p2 := natAbs_mul_le d1 n2
+  have p3 := natAbs_mul_le d1 d2
+  have s := Int.natAbs_sub_le (a.num * b.den) (a.den * b.num)
+  exact exactRatio_exact_of_natAbs (mul_den_ne pa pb) (by omega) (by omega)
+
+/-- For `*` and `/` the sharp bound is `46341 = ⌈√(2^31)⌉`: `46340^2 = 2147395600 ≤ 2^31 - 1`. -/
+theorem mul_complete {a b : Num} (ea : a.isExact = true) (eb : b.isExact = true)
+    (pa : a.PosDen) (pb : b.PosDen) (ba : a.Below 46341) (bb : b.Below 46341) :
+    ∃ r, mul a b = .ok r ∧ r.isExact = true := by
+  rw [mul_exact ea eb]
+  have n1 := below_num ba (by decide); have n2 := below_num bb (by decide)
+  have d1 := below_den ba (by decide); have d2 := below_den bb (by decide)
+  have k : (46341 - 1 : Int).toNat = 46340 := by decide
+  rw [k] at n1 n2 d1 d2
+  have p1 := natAbs_mul_le n1 n2
+  have p3 := natAbs_mul_le d1 d2
+  exact exactRatio_exact_of_natAbs (mul_den_ne pa pb) (by omega) (by omega)
+
+theorem div_complete {a b : Num} (ea : a.isExact = true) (eb : b.isExact = true)
+    (pa : a.PosDen) (pb : b.PosDen) (ba : a.Below 46341) (bb : b.Below 46341)
+    (h0 : b.num ≠ 0) :
+    ∃ r, div a b = .ok r ∧ r.isExact = true := by
+  have da := posDen_den pa
+  have db := posDen_den pb
+  rw [div_exact ea eb, if_neg h0, if_neg (by omega), if_neg (by omega)]
+  have n1 := below_num ba (by decide); have n2 := below_num bb (by decide)
+  have d1 := below_den ba (by decide); have d2 := below_den bb (by decide)
+  have k : (46341 - 1 : Int).toNat = 46340 := by decide
+  rw [k] at n1 n2 d1 d2
+  have p1 := natAbs_mul_le n1 d2
+  have p3 := natAbs_mul_le d1 n2
+  exact exactRatio_exact_of_natAbs (Int.mul_ne_zero (by omega) h0) (by omega) (by omega)
+
+theorem Below.mono {a : Num} {B C : Int} (h : a.Below B) (hBC : B ≤ C) : a.Below C := by
+  cases a with
+  | int i => exact ⟨by have := h.1; omega, by have := h.2; omega⟩
+  | rat n d =>
+    obtain ⟨h1, h2, h3, h4⟩ := h
+    exact ⟨by omega, by omega, by omega, by omega⟩
+  | real r => trivial
+
+/-! ### floor and ceiling -/
+
+theorem exactRatio_one {n : Int} (h : fitsI32 n = true) : exactRatio n 1 = .ok (.int n) := by
+  have h1 : redNum n 1 = n := by simp [redNum]
+  have h2 : redDen n 1 = 1 := by simp [redDen]
+  rw [exactRatio_eq (by decide), h1, h2, h]; rfl
+
+theorem floor_rat {a b : Int} (hb : 0 < b) : floor (.rat a b) = exactRatio (a / b) 1 := by
+  have e : floor (.rat a b) =
+      if ((b.natAbs : Int)) = 0 then .error (.panic "floor: zero denominator")
+      else exactRatio ((a * b.sign) / (b.natAbs : Int)) 1 := rfl
+  rw [e, if_neg (by omega), Int.sign_eq_one_of_pos hb, Int.mul_one]
+  congr 2; omega
+
+theorem ceiling_rat {a b : Int} (hb : 0 < b) :
+    ceiling (.rat a b) = exactRatio (-((-a) / b)) 1 := by
+  have e : ceiling (.rat a b) =
+      if ((b.natAbs : Int)) = 0 then .error (.panic "ceiling: zero denominator")
+      else exactRatio (-((-(a * b.sign)) / (b.natAbs : Int))) 1 := rfl
+  rw [e, if_neg (by omega), Int.sign_eq_one_of_pos hb, Int.mul_one]
+  congr 4; omega
+
+theorem ediv_bounds {a b : Int} (hb : 0 < b) (ha : fitsI32 a = true) : fitsI32 (a / b) = true := by
+  rw [fitsI32_iff] at *
+  have h1 := Int.ediv_mul_le a (Int.ne_of_gt hb)
+  have h2 := Int.lt_ediv_add_one_mul_self a hb
+  constructor
+  · -- a / b ≥ a when a < 0, ≥ 0 otherwise
+    by_cases h : 0 ≤ a
+    · have := Int.ediv_nonneg h (Int.le_of_lt hb); omega
+    · have : a ≤ a / b := by
+        have hq : a / b < 0 := Int.ediv_neg_of_neg_of_pos (by omega) hb
+        nlinarith
+      omega
+  · by_cases h : 0 ≤ a
+    · have : a / b ≤ a := Int.ediv_le_self b h
+      omega
+    · have hq : a / b < 0 := Int.ediv_neg_of_neg_of_pos (by omega) hb
+      omega
+
+theorem floor_spec {x : Num} {v : ℚ} (hx : x.DenPos) (hv : x.val = some v) :
+    ∃ q : Int, floor x = .ok (.int q) ∧ fitsI32 q = true ∧ (q : ℚ) ≤ v ∧ v < (q : ℚ) + 1 := by
+  cases x with
+  | int i =>
+    simp only [val, Option.some.injEq] at hv; subst hv
+    exact ⟨i, rfl, hx, le_refl _, by linarith⟩
+  | real r => cases hv
+  | rat a b =>
+    obtain ⟨fa, fb, pb⟩ := hx
+    simp only [val, Option.some.injEq] at hv; subst hv
+    have pb' : (0 : ℚ) < (b : ℚ) := by exact_mod_cast pb
+    have ff := ediv_bounds pb fa
+    refine ⟨a / b, ?_, ff, ?_, ?_⟩
+    · rw [floor_rat pb, exactRatio_one ff]
+    · rw [le_div_iff₀ pb']
+      exact_mod_cast Int.ediv_mul_le a (Int.ne_of_gt pb)
+    · rw [div_lt_iff₀ pb']
+      exact_mod_cast Int.lt_ediv_add_one_mul_self a pb
+
+theorem neg_ediv_bounds {a b : Int} (hb : 0 < b) (ha : fitsI32 a = true) :
+    fitsI32 (-((-a) / b)) = true := by
+  rw [fitsI32_iff] at *
+  have h1 := Int.ediv_mul_le (-a) (Int.ne_of_gt hb)
+  have h2 := Int.lt_ediv_add_one_mul_self (-a) hb
+  by_cases h : 0 ≤ -a
+  · have := Int.ediv_nonneg h (Int.le_of_lt hb)
+    have : (-a) / b ≤ -a := Int.ediv_le_self b h
+    omega
+  · have hq : (-a) / b < 0 := Int.ediv_neg_of_neg_of_pos (by omega) hb
+    have : -a ≤ (-a) / b := by nlinarith
+    omega
+
+theorem ceiling_spec {x : Num} {v : ℚ} (hx : x.DenPos) (hv : x.val = some v) :
+    ∃ q : Int, ceiling x = .ok (.int q) ∧ fitsI32 q = true ∧ (q : ℚ) - 1 < v ∧ v ≤ (q : ℚ) := by
+  cases x with
+  | int i =>
+    simp only [val, Option.some.injEq] at hv; subst hv
+    exact ⟨i, rfl, hx, by linarith, le_refl _⟩
+  | real r => cases hv
+  | rat a b =>
+    obtain ⟨fa, fb, pb⟩ := hx
+    simp only [val, Option.some.injEq] at hv; subst hv
+    have pb' : (0 : ℚ) < (b : ℚ) := by exact_mod_cast pb
+    have ff := neg_ediv_bounds pb fa
+    refine ⟨-((-a) / b), ?_, ff, ?_, ?_⟩
+    · rw [ceiling_rat pb, exactRatio_one ff]
+    · rw [lt_div_iff₀ pb']
+      have h2 : (((-a) : Int) : ℚ) < ((((-a) / b + 1) * b : Int) : ℚ) := by
+        exact_mod_cast Int.lt_ediv_add_one_mul_self (-a) pb
+      push_cast at h2 ⊢; linarith
+    · rw [div_le_iff₀ pb']
+      have h1 : ((((-a) / b * b : Int)) : ℚ) ≤ (((-a) : Int) : ℚ) := by
+        exact_mod_cast Int.ediv_mul_le (-a) (Int.ne_of_gt pb)
+      push_cast at h1 ⊢; linarith
+
+theorem floor_isOk {x : Num} (hx : x.PosDen) : IsOk (floor x) := by
+  cases x with
+  | int i => exact ⟨_, rfl⟩
+  | real r => exact ⟨_, rfl⟩
+  | rat a b => rw [floor_rat hx]; exact exactRatio_isOk (by decide)
+
+theorem ceiling_isOk {x : Num} (hx : x.PosDen) : IsOk (ceiling x) := by
+  cases x with
+  | int i => exact ⟨_, rfl⟩
+  | real r => exact ⟨_, rfl⟩
+  | rat a b => rw [ceiling_rat hx]; exact exactRatio_isOk (by decide)
+
+theorem floor_wf {x r : Num} (hx : x.WF) (h : floor x = .ok r) : r.WF := by
+  cases x with
+  | int i => cases h; exact hx
+  | real f => cases h; trivial
+  | rat a b => rw [floor_rat hx.2.2.1] at h; exact exactRatio_wf' h
+
+theorem ceiling_wf {x r : Num} (hx : x.WF) (h : ceiling x = .ok r) : r.WF := by
+  cases x with
+  | int i => cases h; exact hx
+  | real f => cases h; trivial
+  | rat a b => rw [ceiling_rat hx.2.2.1] at h; exact exactRatio_wf' h
+
+/-! ### floor-quotient and floor-remainder -/
+
+theorem floorQuotient_ok {x y q : Num} (h : floorQuotient x y = .ok q) :
+    ∃ t, div x y = .ok t ∧ floor t = .ok q := by
+  unfold floorQuotient at h
+  cases hd : div x y with
+  | error e => rw [hd] at h; cases h
+  | ok t => rw [hd] at h; exact ⟨t, rfl, h⟩
+
+theorem floorRemainder_ok {x y r : Num} (h : floorRemainder x y = .ok r) :
+    ∃ q p, floorQuotient x y = .ok q ∧ mul q y = .ok p ∧ sub x p = .ok r := by
+  unfold floorRemainder at h
+  cases hq : floorQuotient x y with
+  | error e => rw [hq] at h; cases h
+  | ok q =>
+    rw [hq] at h
+    cases hp : mul q y with
+    | error e =>
+      have h' : (mul q y >>= fun p => sub x p) = .ok r := h
+      rw [hp] at h'; cases h'
+    | ok p =>
+      have h' : (mul q y >>= fun p => sub x p) = .ok r := h
+      rw [hp] at h'
+      exact ⟨q, p, rfl, hp, h'⟩
+
+theorem floor_exact_inv {t q : Num} (h : floor t = .ok q) (hq : q.isExact = true) :
+    t.isExact = true := by
+  cases t with
+  | int i => rfl
+  | rat a b => rfl
+  | real f => cases h; cases hq
+
+theorem int_le_of_lt_add_one {m k : Int} {v : ℚ} (h1 : (m : ℚ) ≤ v) (h2 : v < (k : ℚ) + 1) :
+    m ≤ k := by
+  have : (m : ℚ) < ((k + 1 : Int) : ℚ) := by push_cast; linarith
+  have := Int.cast_lt.mp this
+  omega
+
+theorem floorq_floorr {n d q r : Num} {vn vd : ℚ} (hn : n.val = some vn) (hd : d.val = some vd)
+    (hq : floorQuotient n d = .ok q) (hr : floorRemainder n d = .ok r)
+    (eq : q.isExact = true) (er : r.isExact = true) :
+    ∃ (k : Int) (vr : ℚ), q = .int k ∧ r.val = some vr ∧ vd ≠ 0 ∧
+      vn = vd * (k : ℚ) + vr ∧ (k : ℚ) ≤ vn / vd ∧ vn / vd < (k : ℚ) + 1 ∧
+      ∀ m : Int, (m : ℚ) ≤ vn / vd → m ≤ k := by
+  obtain ⟨t, hdiv, hfl⟩ := floorQuotient_ok hq
+  have et := floor_exact_inv hfl eq
+  have vt := div_sound hn hd hdiv et
+  have wt := div_wf hdiv
+  obtain ⟨k, hk, _, k1, k2⟩ := floor_spec wt.denPos vt
+  rw [hfl] at hk
+  have qk : q = .int k := by injection hk
+  subst qk
+  obtain ⟨q', p, hq', hmul, hsub⟩ := floorRemainder_ok hr
+  rw [hq] at hq'
+  have : q' = .int k := by injection hq' with h; exact h.symm
+  subst this
+  obtain ⟨_, ep⟩ := sub_exact_inv hsub er
+  have vp := mul_sound (a := .int k) (x := (k : ℚ)) rfl hd hmul ep
+  have vr := sub_sound hn vp hsub er
+  obtain ⟨n0, _, d0, _⟩ := div_ok_exact (val_isExact hn) (val_isExact hd) hdiv
+  have vd0 : vd ≠ 0 := by
+    rw [val_eq_of hd]
+    exact div_ne_zero (by exact_mod_cast n0) (by exact_mod_cast d0)
+  exact ⟨k, _, rfl, vr, vd0, by ring, k1, k2, fun m hm => int_le_of_lt_add_one hm k2⟩
+
+/-! ### the n-ary folds -/
+
+theorem foldlM_wf {f : Num → Num → Except Err Num}
+    (hf : ∀ a b r, f a b = .ok r → r.WF) :
+    ∀ (xs : List Num) (init r : Num), init.WF → xs.foldlM f init = .ok r → r.WF := by
+  intro xs
+  induction xs with
+  | nil => intro init r hi h; cases h; exact hi
+  | cons x xs ih =>
+    intro init r hi h
+    rw [List.foldlM_cons] at h
+    cases hx : f init x with
+    | error e => rw [hx] at h; cases h
+    | ok m => rw [hx] at h; exact ih m r (hf _ _ _ hx) h
+
+theorem foldlM_isOk {f : Num → Num → Except Err Num}
+    (hf : ∀ a b r, f a b = .ok r → r.WF)
+    (hok : ∀ a b, a.PosDen → b.PosDen → IsOk (f a b)) :
+    ∀ (xs : List Num) (init : Num), init.PosDen → (∀ x ∈ xs, x.PosDen) →
+      IsOk (xs.foldlM f init) := by
+  intro xs
+  induction xs with
+  | nil => intro init _ _; exact ⟨init, rfl⟩
+  | cons x xs ih =>
+    intro init hi hxs
+    rw [List.foldlM_cons]
+    obtain ⟨m, hm⟩ := hok init x hi (hxs x (List.mem_cons_self ..))
+    rw [hm]
+    exact ih m (hf _ _ _ hm).posDen (fun y hy => hxs y (List.mem_cons_of_mem _ hy))
+
+theorem valD_of_val {a : Num} {v : ℚ} (h : a.val = some v) : a.valD = v := by
+  simp [valD, h]
+
+theorem val_of_exact {a : Num} (h : a.isExact = true) : a.val = some a.valD := by
+  obtain ⟨v, hv⟩ := isExact_val h; rw [valD_of_val hv, hv]
+
+/-- An exact result of a left fold of `+` is the sum of the values (and then every argument was
+exact). -/
+theorem foldlM_add_sound :
+    ∀ (xs : List Num) (init r : Num), xs.foldlM add init = .ok r → r.isExact = true →
+      init.isExact = true ∧ (∀ x ∈ xs, x.isExact = true) ∧
+      r.val = some (xs.foldl (fun acc x => acc + x.valD) init.valD) := by
+  intro xs
+  induction xs with
+  | nil => intro init r h hr; cases h; exact ⟨hr, by simp, val_of_exact hr⟩
+  | cons x xs ih =>
+    intro init r h hr
+    rw [List.foldlM_cons] at h
+    cases hx : add init x with
+    | error e => rw [hx] at h; cases h
+    | ok m =>
+      rw [hx] at h
+      obtain ⟨em, exs, vr⟩ := ih m r h hr
+      obtain ⟨ei, ex⟩ := add_exact_inv hx em
+      have vm := add_sound (val_of_exact ei) (val_of_exact ex) hx em
+      refine ⟨ei, ?_, ?_⟩
+      · intro y hy
+        rcases List.mem_cons.mp hy with rfl | hy
+        · exact ex
+        · exact exs y hy
+      · rw [vr, valD_of_val vm]; rfl
+
+theorem foldlM_mul_sound :
+    ∀ (xs : List Num) (init r : Num), xs.foldlM mul init = .ok r → r.isExact = true →
+      init.isExact = true ∧ (∀ x ∈ xs, x.isExact = true) ∧
+      r.val = some (xs.foldl (fun acc x => acc * x.valD) init.valD) := by
+  intro xs
+  induction xs with
+  | nil => intro init r h hr; cases h; exact ⟨hr, by simp, val_of_exact hr⟩
+  | cons x xs ih =>
+    intro init r h hr
+    rw [List.foldlM_cons] at h
+    cases hx : mul init x with
+    | error e => rw [hx] at h; cases h
+    | ok m =>
+      rw [hx] at h
+      obtain ⟨em, exs, vr⟩ := ih m r h hr
+      obtain ⟨ei, ex⟩ := mul_exact_inv hx em
+      have vm := mul_sound (val_of_exact ei) (val_of_exact ex) hx em
+      refine ⟨ei, ?_, ?_⟩
+      · intro y hy
+        rcases List.mem_cons.mp hy with rfl | hy
+        · exact ex
+        · exact exs y hy
+      · rw [vr, valD_of_val vm]; rfl
+
+/-! ### comparisons (C10) -/
+
+theorem lt_exact {a b : Num} (ea : a.isExact = true) (eb : b.isExact = true) :
+    lt a b = true ↔ a.num * b.den < b.num * a.den := by
+  cases a <;> cases b <;> simp_all [isExact, lt, upcast, num, den]
+
+theorem gt_exact {a b : Num} (ea : a.isExact = true) (eb : b.isExact = true) :
+    gt a b = true ↔ b.num * a.den < a.num * b.den := by
+  cases a <;> cases b <;> simp_all [isExact, gt, upcast, num, den]
+
+theorem le_exact {a b : Num} (ea : a.isExact = true) (eb : b.isExact = true) :
+    le a b = true ↔ a.num * b.den ≤ b.num * a.den := by
+  cases a <;> cases b <;> simp_all [isExact, le, upcast, num, den]
+
+theorem ge_exact {a b : Num} (ea : a.isExact = true) (eb : b.isExact = true) :
+    ge a b = true ↔ b.num * a.den ≤ a.num * b.den := by
+  cases a <;> cases b <;> simp_all [isExact, ge, upcast, num, den]
+
+theorem eq_exact {a b : Num} (ea : a.isExact = true) (eb : b.isExact = true) :
+    eq a b = true ↔ a.num * b.den = b.num * a.den := by
+  cases a <;> cases b <;> simp_all [isExact, eq, upcast, num, den]
+
+theorem cross_lt {a b : Num} (pa : a.PosDen) (pb : b.PosDen) :
+    (a.num : ℚ) / a.den < (b.num : ℚ) / b.den ↔ a.num * b.den < b.num * a.den := by
+  have da : (0 : ℚ) < a.den := by exact_mod_cast posDen_den pa
+  have db : (0 : ℚ) < b.den := by exact_mod_cast posDen_den pb
+  rw [div_lt_div_iff₀ da db]
+  exact_mod_cast Iff.rfl
+
+theorem cross_le {a b : Num} (pa : a.PosDen) (pb : b.PosDen) :
+    (a.num : ℚ) / a.den ≤ (b.num : ℚ) / b.den ↔ a.num * b.den ≤ b.num * a.den := by
+  have da : (0 : ℚ) < a.den := by exact_mod_cast posDen_den pa
+  have db : (0 : ℚ) < b.den := by exact_mod_cast posDen_den pb
+  rw [div_le_div_iff₀ da db]
+  exact_mod_cast Iff.rfl
+
+theorem cross_eq {a b : Num} (pa : a.PosDen) (pb : b.PosDen) :
+    (a.num : ℚ) / a.den = (b.num : ℚ) / b.den ↔ a.num * b.den = b.num * a.den := by
+  have da : (a.den : ℚ) ≠ 0 := by exact_mod_cast Int.ne_of_gt (posDen_den pa)
+  have db : (b.den : ℚ) ≠ 0 := by exact_mod_cast Int.ne_of_gt (posDen_den pb)
+  rw [div_eq_div_iff da db]
+  exact_mod_cast Iff.rfl
+
+theorem lt_iff {a b : Num} {x y : ℚ} (pa : a.PosDen) (pb : b.PosDen)
+    (ha : a.val = some x) (hb : b.val = some y) : lt a b = true ↔ x < y := by
+  rw [lt_exact (val_isExact ha) (val_isExact hb), val_eq_of ha, val_eq_of hb, cross_lt pa pb]
+
+theorem gt_iff {a b : Num} {x y : ℚ} (pa : a.PosDen) (pb : b.PosDen)
+    (ha : a.val = some x) (hb : b.val = some y) : gt a b = true ↔ x > y := by
+  rw [gt_exact (val_isExact ha) (val_isExact hb), val_eq_of ha, val_eq_of hb, gt_iff_lt,
+    cross_lt pb pa]
+
+theorem le_iff {a b : Num} {x y : ℚ} (pa : a.PosDen) (pb : b.PosDen)
+    (ha : a.val = some x) (hb : b.val = some y) : le a b = true ↔ x ≤ y := by
+  rw [le_exact (val_isExact ha) (val_isExact hb), val_eq_of ha, val_eq_of hb, cross_le pa pb]
+
+theorem ge_iff {a b : Num} {x y : ℚ} (pa : a.PosDen) (pb : b.PosDen)
+    (ha : a.val = some x) (hb : b.val = some y) : ge a b = true ↔ x ≥ y := by
+  rw [ge_exact (val_isExact ha) (val_isExact hb), val_eq_of ha, val_eq_of hb, ge_iff_le,
+    cross_le pb pa]
+
+theorem eq_iff {a b : Num} {x y : ℚ} (pa : a.PosDen) (pb : b.PosDen)
+    (ha : a.val = some x) (hb : b.val = some y) : eq a b = true ↔ x = y := by
+  rw [eq_exact (val_isExact ha) (val_isExact hb), val_eq_of ha, val_eq_of hb, cross_eq pa pb]
+
+/-- dispatch with an inexact operand -/
+theorem lt_real {a b : Num} (h : a.isExact = false ∨ b.isExact = false) :
+    lt a b = decide (a.toReal < b.toReal) := by
+  cases a <;> cases b <;> first | (rcases h with h | h <;> simp [isExact] at h; done) | rfl
+
+theorem gt_real {a b : Num} (h : a.isExact = false ∨ b.isExact = false) :
+    gt a b = decide (a.toReal > b.toReal) := by
+  cases a <;> cases b <;> first | (rcases h with h | h <;> simp [isExact] at h; done) | rfl
+
+theorem le_real {a b : Num} (h : a.isExact = false ∨ b.isExact = false) :
+    le a b = decide (a.toReal ≤ b.toReal) := by
+  cases a <;> cases b <;> first | (rcases h with h | h <;> simp [isExact] at h; done) | rfl
+
+theorem ge_real {a b : Num} (h : a.isExact = false ∨ b.isExact = false) :
+    ge a b = decide (a.toReal ≥ b.toReal) := by
+  cases a <;> cases b <;> first | (rcases h with h | h <;> simp [isExact] at h; done) | rfl
+
+theorem eq_real {a b : Num} (h : a.isExact = false ∨ b.isExact = false) :
+    eq a b = (a.toReal == b.toReal) := by
+  cases a <;> cases b <;> first | (rcases h with h | h <;> simp [isExact] at h; done) | rfl
+
+/-- The cross products compared by `=`/`<` fit in the `i64` the Rust code computes them in. -/
+theorem cross_fits_i64 {a b : Int} (ha : fitsI32 a = true) (hb : fitsI32 b = true) :
+    -9223372036854775808 ≤ a * b ∧ a * b ≤ 9223372036854775807 := by
+  rw [fitsI32_iff] at ha hb
+  have h1 : a.natAbs ≤ 2147483648 := by omega
+  have h2 : b.natAbs ≤ 2147483648 := by omega
+  have := natAbs_mul_le h1 h2
+  omega
+
+/-! ### comparison chains -/
+
+theorem cmpChain_iff (op : Num → Num → Bool) :
+    ∀ xs : List Num, cmpChain op xs = true ↔ Adjacent op xs
+  | [] => by simp [cmpChain, Adjacent]
+  | [_] => by simp [cmpChain, Adjacent]
+  | a :: b :: rest => by
+    have ih := cmpChain_iff op (b :: rest)
+    unfold cmpChain Adjacent
+    by_cases h : op a b = true
+    · simp [h, ih]
+    · simp [h]
+
+theorem adjacent_iff_index (op : Num → Num → Bool) :
+    ∀ xs : List Num, Adjacent op xs ↔
+      ∀ (i : Nat) (h : i + 1 < xs.length), op (xs[i]'(by omega)) (xs[i + 1]'h) = true
+  | [] => by simp [Adjacent]
+  | [_] => by simp [Adjacent]
+  | a :: b :: rest => by
+    have ih := adjacent_iff_index op (b :: rest)
+    unfold Adjacent
+    rw [ih]
+    constructor
+    · rintro ⟨h0, hs⟩ i hi
+      cases i with
+      | zero => exact h0
+      | succ j => exact hs j (by simpa using hi)
+    · intro h
+      refine ⟨h 0 (by simp), fun i hi => ?_⟩
+      exact h (i + 1) (by simpa using hi)
+
+/-! ### max / min -/
+
+theorem maxStep_exact {a b : Num} (ea : a.isExact = true) (eb : b.isExact = true) :
+    maxStep a b = if gt a b = true then a else b := by
+  cases a <;> cases b <;> simp_all [isExact, maxStep, upcast]
+
+theorem minStep_exact {a b : Num} (ea : a.isExact = true) (eb : b.isExact = true) :
+    minStep a b = if lt a b = true then a else b := by
+  cases a <;> cases b <;> simp_all [isExact, minStep, upcast]
+
+/-- with an inexact operand the kept operand is converted -/
+theorem maxStep_real {a b : Num} (h : a.isExact = false ∨ b.isExact = false) :
+    maxStep a b = if gt a b = true then .real a.toReal else .real b.toReal := by
+  cases a <;> cases b <;> first | (rcases h with h | h <;> simp [isExact] at h; done) | rfl
+
+theorem minStep_real {a b : Num} (h : a.isExact = false ∨ b.isExact = false) :
+    minStep a b = if lt a b = true then .real a.toReal else .real b.toReal := by
+  cases a <;> cases b <;> first | (rcases h with h | h <;> simp [isExact] at h; done) | rfl
+
+theorem maxStep_isExact (a b : Num) :
+    (maxStep a b).isExact = (a.isExact && b.isExact) := by
+  by_cases ea : a.isExact = true
+  · by_cases eb : b.isExact = true
+    · rw [maxStep_exact ea eb]; split <;> simp [ea, eb]
+    · rw [maxStep_real (Or.inr (by simpa using eb))]; split <;> simp_all [isExact]
+  · rw [maxStep_real (Or.inl (by simpa using ea))]; split <;> simp_all [isExact]
+
+theorem minStep_isExact (a b : Num) :
+    (minStep a b).isExact = (a.isExact && b.isExact) := by
+  by_cases ea : a.isExact = true
+  · by_cases eb : b.isExact = true
+    · rw [minStep_exact ea eb]; split <;> simp [ea, eb]
+    · rw [minStep_real (Or.inr (by simpa using eb))]; split <;> simp_all [isExact]
+  · rw [minStep_real (Or.inl (by simpa using ea))]; split <;> simp_all [isExact]
+
+theorem foldl_maxStep_isExact : ∀ (xs : List Num) (acc : Num),
+    (xs.foldl maxStep acc).isExact = (acc.isExact && xs.all isExact)
+  | [], acc => by simp
+  | x :: xs, acc => by
+    rw [List.foldl_cons, foldl_maxStep_isExact xs, maxStep_isExact, List.all_cons, Bool.and_assoc]
+
+theorem foldl_minStep_isExact : ∀ (xs : List Num) (acc : Num),
+    (xs.foldl minStep acc).isExact = (acc.isExact && xs.all isExact)
+  | [], acc => by simp
+  | x :: xs, acc => by
+    rw [List.foldl_cons, foldl_minStep_isExact xs, minStep_isExact, List.all_cons, Bool.and_assoc]
+
+/-- one step on exact operands: the result is one of the two and dominates both -/
+theorem maxStep_spec {a b : Num} (ea : a.isExact = true) (eb : b.isExact = true)
+    (pa : a.PosDen) (pb : b.PosDen) :
+    (maxStep a b = a ∨ maxStep a b = b) ∧ a.valD ≤ (maxStep a b).valD ∧
+      b.valD ≤ (maxStep a b).valD := by
+  rw [maxStep_exact ea eb]
+  have h := gt_iff pa pb (val_of_exact ea) (val_of_exact eb)
+  split
+  · next hg => exact ⟨Or.inl rfl, le_refl _, le_of_lt (h.mp hg)⟩
+  · next hg => exact ⟨Or.inr rfl, not_lt.mp (fun hh => hg (h.mpr hh)), le_refl _⟩
+
+theorem minStep_spec {a b : Num} (ea : a.isExact = true) (eb : b.isExact = true)
+    (pa : a.PosDen) (pb : b.PosDen) :
+    (minStep a b = a ∨ minStep a b = b) ∧ (minStep a b).valD ≤ a.valD ∧
+      (minStep a b).valD ≤ b.valD := by
+  rw [minStep_exact ea eb]
+  have h := lt_iff pa pb (val_of_exact ea) (val_of_exact eb)
+  split
+  · next hg => exact ⟨Or.inl rfl, le_refl _, le_of_lt (h.mp hg)⟩
+  · next hg => exact ⟨Or.inr rfl, not_lt.mp (fun hh => hg (h.mpr hh)), le_refl _⟩
+
+theorem foldl_maxStep_spec : ∀ (xs : List Num) (acc : Num),
+    (∀ y ∈ acc :: xs, y.isExact = true ∧ y.PosDen) →
+    (xs.foldl maxStep acc) ∈ acc :: xs ∧
+      ∀ y ∈ acc :: xs, y.valD ≤ (xs.foldl maxStep acc).valD
+  | [], acc, _ => by simp
+  | x :: xs, acc, h => by
+    have ha := h acc (List.mem_cons_self ..)
+    have hx := h x (List.mem_cons_of_mem _ (List.mem_cons_self ..))
+    obtain ⟨hm, l1, l2⟩ := maxStep_spec ha.1 hx.1 ha.2 hx.2
+    have hm' : (maxStep acc x).isExact = true ∧ (maxStep acc x).PosDen := by
+      rcases hm with e | e <;> rw [e] <;> assumption
+    have ih := foldl_maxStep_spec xs (maxStep acc x) (by
+      intro y hy
+      rcases List.mem_cons.mp hy with rfl | hy
+      · exact hm'
+      · exact h y (List.mem_cons_of_mem _ (List.mem_cons_of_mem _ hy)))
+    rw [List.foldl_cons]
+    obtain ⟨mem, dom⟩ := ih
+    have dm := dom _ (List.mem_cons_self ..)
+    refine ⟨?_, ?_⟩
+    · rcases List.mem_cons.mp mem with e | e
+      · rw [e]; rcases hm with e' | e' <;> rw [e'] <;> simp
+      · exact List.mem_cons_of_mem _ (List.mem_cons_of_mem _ e)
+    · intro y hy
+      rcases List.mem_cons.mp hy with rfl | hy
+      · exact le_trans l1 dm
+      · rcases List.mem_cons.mp hy with rfl | hy
+        · exact le_trans l2 dm
+        · exact dom y (List.mem_cons_of_mem _ hy)
+
+theorem foldl_minStep_spec : ∀ (xs : List Num) (acc : Num),
+    (∀ y ∈ acc :: xs, y.isExact = true ∧ y.PosDen) →
+    (xs.foldl minStep acc) ∈ acc :: xs ∧
+      ∀ y ∈ acc :: xs, (xs.foldl minStep acc).valD ≤ y.valD
+  | [], acc, _ => by simp
+  | x :: xs, acc, h => by
+    have ha := h acc (List.mem_cons_self ..)
+    have hx := h x (List.mem_cons_of_mem _ (List.mem_cons_self ..))
+    obtain ⟨hm, l1, l2⟩ := minStep_spec ha.1 hx.1 ha.2 hx.2
+    have hm' : (minStep acc x).isExact = true ∧ (minStep acc x).PosDen := by
+      rcases hm with e | e <;> rw [e] <;> assumption
+    have ih := foldl_minStep_spec xs (minStep acc x) (by
+      intro y hy
+      rcases List.mem_cons.mp hy with rfl | hy
+      · exact hm'
+      · exact h y (List.mem_cons_of_mem _ (List.mem_cons_of_mem _ hy)))
+    rw [List.foldl_cons]
+    obtain ⟨mem, dom⟩ := ih
+    have dm := dom _ (List.mem_cons_self ..)
+    refine ⟨?_, ?_⟩
+    · rcases List.mem_cons.mp mem with e | e
+      · rw [e]; rcases hm with e' | e' <;> rw [e'] <;> simp
+      · exact List.mem_cons_of_mem _ (List.mem_cons_of_mem _ e)
+    · intro y hy
+      rcases List.mem_cons.mp hy with rfl | hy
+      · exact le_trans dm l1
+      · rcases List.mem_cons.mp hy with rfl | hy
+        · exact le_trans dm l2
+        · exact dom y (List.mem_cons_of_mem _ hy)
+
+/-! ### eqv? -/
+
+theorem int_ne_rat {i n d : Int} (hd : 0 < d) (h1 : d ≠ 1) (hg : Int.gcd n d = 1) :
+    (i : ℚ) ≠ (n : ℚ) / (d : ℚ) := by
+  intro h
+  have hd' : (d : ℚ) ≠ 0 := by exact_mod_cast Int.ne_of_gt hd
+  have e : (i : ℚ) / ((1 : Int) : ℚ) = (n : ℚ) / (d : ℚ) := by simpa using h
+  have := coprime_div_unique (n1 := i) (d1 := 1) Int.one_pos hd (by simp) hg e
+  exact h1 this.2.symm
+
+theorem exactEqv_iff {a b : Num} (ha : a.WF) (hb : b.WF) :
+    exactEqv a b = true ↔
+      (∃ v, a.val = some v ∧ b.val = some v) ∨
+      (∃ r s, a = .real r ∧ b = .real s ∧ (r == s) = true) := by
+  cases a with
+  | int i =>
+    cases b with
+    | int j => simp [exactEqv, val]; exact eq_comm
+    | real s => simp [exactEqv, val]
+    | rat n d =>
+      obtain ⟨_, _, p, d1, g⟩ := hb
+      have := int_ne_rat (i := i) p d1 g
+      simp [exactEqv, val, Ne.symm this]
+  | real r =>
+    cases b with
+    | int j => simp [exactEqv, val]
+    | real s => simp [exactEqv, val]
+    | rat n d => simp [exactEqv, val]
+  | rat n d =>
+    obtain ⟨_, _, p, d1, g⟩ := ha
+    cases b with
+    | int j =>
+      have := int_ne_rat (i := j) p d1 g
+      simp [exactEqv, val, this]
+    | real s => simp [exactEqv, val]
+    | rat n' d' =>
+      obtain ⟨_, _, p', _, _⟩ := hb
+      have c := cross_eq (a := .rat n d) (b := .rat n' d') p p'
+      simp only [num, den] at c
+      simp only [exactEqv, val, beq_iff_eq]
+      constructor
+      · intro h
+        left
+        refine ⟨_, rfl, ?_⟩
+        rw [Option.some.injEq]
+        exact (c.mpr (by rw [h]; ring)).symm
+      · rintro (⟨v, h1, h2⟩ | ⟨r, s, h, _⟩)
+        · rw [Option.some.injEq] at h1 h2
+          have := c.mp (h1.trans h2.symm)
+          rw [this]; ring
+        · cases h
+
+/-! ### floor-quotient / floor-remainder: invariant and absence of panics -/
+
+theorem floorQuotient_wf {a b r : Num} (h : floorQuotient a b = .ok r) : r.WF := by
+  obtain ⟨t, ht, hf⟩ := floorQuotient_ok h
+  exact floor_wf (div_wf ht) hf
+
+theorem floorRemainder_wf {a b r : Num} (h : floorRemainder a b = .ok r) : r.WF := by
+  obtain ⟨q, p, _, _, hs⟩ := floorRemainder_ok h
+  exact sub_wf hs
+
+theorem floorQuotient_cases {a b : Num} (pa : a.PosDen) (pb : b.PosDen) :
+    IsOk (floorQuotient a b) ∨ floorQuotient a b = .error .divZero := by
+  rcases div_cases pa pb with ⟨_, _, _, h⟩ | ⟨_, t, h⟩
+  · right; unfold floorQuotient; rw [h]; rfl
+  · left
+    obtain ⟨q, hq⟩ := floor_isOk (div_wf h).posDen
+    exact ⟨q, by unfold floorQuotient; rw [h]; exact hq⟩
+
+theorem floorRemainder_cases {a b : Num} (pa : a.PosDen) (pb : b.PosDen) :
+    IsOk (floorRemainder a b) ∨ floorRemainder a b = .error .divZero := by
+  rcases floorQuotient_cases pa pb with ⟨q, hq⟩ | h
+  · left
+    obtain ⟨p, hp⟩ := mul_isOk (floorQuotient_wf hq).posDen pb
+    obtain ⟨r, hr⟩ := sub_isOk pa (mul_wf hp).posDen
+    refine ⟨r, ?_⟩
+    unfold floorRemainder; rw [hq]
+    show (mul q b >>= fun p => sub a p) = .ok r
+    rw [hp]; exact hr
+  · right; unfold floorRemainder; rw [h]; rfl
+
+end Num
+end Ruschm
